@@ -23,11 +23,11 @@ pub fn def() -> PropDef {
     PropDef {
         id: "C15",
         level: "exploration",
-        rule: "all policies of both kinds with <= 2 filters, each filter exact/prefix over byte strings of length <= 2 from {a, b, ':', 0xff, 0x00} (empty filter, non-UTF-8, a colon for the textual form), evaluated on all keys of length <= 3 over the same bytes against the two-line definition; every filter over a richer byte set (additionally space, newline, tab and a two-byte UTF-8 character) through Display -> FromStr; set/get on existing and missing documents in memory and through reopen of a file-backed store; should_download of real remote-insert events for every policy with <= 1 filter x every key; non-trivial = a policy with at least one filter evaluated on a key that at least one of its filters matches",
+        rule: "all policies of both kinds with <= 2 filters, each filter exact/prefix over byte strings of length <= 2 from {a, b, ':', 0xff, 0x00} (empty filter, non-UTF-8, a colon for the textual form), evaluated on all keys of length <= 3 over the same bytes against the two-line definition; every filter over a richer byte set (additionally space, newline, tab and a two-byte UTF-8 character) through Display -> FromStr; set/get on existing and missing documents in memory and through reopen of a file-backed store; every history of length <= d over {set policy q on document 0|1 (6 policies incl. the default and both empty kinds), set on a missing document, reopen}: after every step each document reads what was set last on it; should_download of real remote-insert events for every policy with <= 1 filter x every key; non-trivial = a policy with at least one filter evaluated on a key that at least one of its filters matches",
         assumptions: &["filters longer than 2 bytes (3 in thorough for the textual form) and more than 2 filters per policy are outside the alphabet"],
         bound: |t| match t {
-            Tier::Quick => json!({"policies": 7814, "keys": 156, "textual_filters": "length <= 2", "persisted_policies": "all in memory, every 16th through file reopen"}),
-            Tier::Thorough => json!({"policies": 7814, "keys": 156, "textual_filters": "length <= 3", "persisted_policies": "all in memory, every 4th through file reopen"}),
+            Tier::Quick => json!({"policies": 7814, "keys": 156, "textual_filters": "length <= 2", "persisted_policies": "all in memory, every 16th through file reopen", "policy_histories": "depth <= 3 in memory, <= 2 file-backed with reopen"}),
+            Tier::Thorough => json!({"policies": 7814, "keys": 156, "textual_filters": "length <= 3", "persisted_policies": "all in memory, every 4th through file reopen", "policy_histories": "depth <= 4 in memory, <= 3 file-backed with reopen"}),
         },
         run,
         replay,
@@ -283,6 +283,103 @@ fn check_events(p: &P, keys: &[Vec<u8>]) -> Vec<(&'static str, String)> {
     bad
 }
 
+/// Policies of the history family: the default, both empty kinds, and a few with filters.
+fn history_policies() -> Vec<P> {
+    vec![
+        (false, vec![]), // EverythingExcept[] = the default
+        (true, vec![]),
+        (false, vec![(false, b"a".to_vec())]),
+        (true, vec![(false, b"a".to_vec())]),
+        (true, vec![(true, vec![])]),
+        (false, vec![(true, b"a".to_vec()), (false, b"b".to_vec())]),
+    ]
+}
+
+/// One step of a policy history: (target, policy index). target 0 | 1 = set on that document,
+/// 2 = set on a missing document (must fail and change nothing), 3 = flush + reopen (file only).
+type H = (u8, u8);
+
+/// Every read after every step must return what was set last on that document (or the default).
+fn check_history(hist: &[H], file: bool) -> Vec<(&'static str, String)> {
+    let pols = history_policies();
+    let mut bad = vec![];
+    let dir = file.then(scratch_dir);
+    let path = dir.as_ref().map(|d| d.path().join("docs.redb"));
+    let mut sut = match &path {
+        Some(p) => Sut::persistent(p).expect("store"),
+        None => Sut::memory(),
+    };
+    for d in [0u8, 1] {
+        sut.store
+            .import_namespace(Capability::Write(ns_secret(d)))
+            .expect("import");
+    }
+    let missing = NamespaceId::from(&[0x66u8; 32]);
+    let mut model: [P; 2] = [(false, vec![]), (false, vec![])];
+    for (i, (target, q)) in hist.iter().enumerate() {
+        let pol = &pols[*q as usize];
+        match target {
+            0 | 1 => {
+                if let Err(e) = sut.store.set_download_policy(&ns_id(*target), policy(pol)) {
+                    bad.push(("set_ok", format!("step {i}: {e:#}")));
+                }
+                model[*target as usize] = pol.clone();
+            }
+            2 => {
+                if sut.store.set_download_policy(&missing, policy(pol)).is_ok() {
+                    bad.push((
+                        "set_only_for_existing_document",
+                        format!("step {i}: set_download_policy succeeded for a missing document"),
+                    ));
+                }
+            }
+            _ => {
+                if file {
+                    sut.store.flush().expect("flush");
+                    drop(sut);
+                    sut = Sut::persistent(path.as_ref().unwrap()).expect("reopen");
+                }
+            }
+        }
+        for d in [0u8, 1] {
+            match sut.store.get_download_policy(&ns_id(d)) {
+                Ok(got) if got == policy(&model[d as usize]) => {}
+                other => bad.push((
+                    "policy_returned_unchanged",
+                    format!(
+                        "after step {i} of {:?}: document {d} was last set to {} but reads {other:?} (file={file})",
+                        hist.iter().map(|(t, q)| format!("{}:{}", t, show_p(&pols[*q as usize]))).collect::<Vec<_>>(),
+                        show_p(&model[d as usize])
+                    ),
+                )),
+            }
+        }
+        match sut.store.get_download_policy(&missing) {
+            Ok(d) if d == DownloadPolicy::default() => {}
+            other => bad.push(("missing_document_has_default", format!("after step {i}: {other:?}"))),
+        }
+        if !bad.is_empty() {
+            break;
+        }
+    }
+    bad
+}
+
+fn history_symbols(file: bool) -> Vec<H> {
+    let n = history_policies().len() as u8;
+    let mut v = vec![];
+    for t in [0u8, 1] {
+        for q in 0..n {
+            v.push((t, q));
+        }
+    }
+    v.push((2, 3));
+    if file {
+        v.push((3, 0));
+    }
+    v
+}
+
 fn run(ctx: &Ctx, report: &mut Report) {
     crate::util::silence_panics();
     let keys = strings(3);
@@ -327,6 +424,35 @@ fn run(ctx: &Ctx, report: &mut Report) {
             }
         }
     }
+    // histories of policy changes: a later set replaces an earlier one (including a return to
+    // the default), per document, across reopen
+    for (file, depth) in [(false, if ctx.quick() { 3 } else { 4 }), (true, if ctx.quick() { 2 } else { 3 })] {
+        let symbols = history_symbols(file);
+        for d in 1..=depth {
+            crate::util::for_each_sequence(symbols.len(), d, |seq| {
+                ordinal += 1;
+                if !ctx.mine(ordinal) {
+                    return;
+                }
+                let hist: Vec<H> = seq.iter().map(|&i| symbols[i]).collect();
+                report.evaluations += 1;
+                report.traces += 1;
+                let nt = hist.iter().enumerate().any(|(i, (t, _))| *t < 2 && hist[..i].iter().any(|(t2, _)| t2 == t));
+                if nt {
+                    report.nontrivial += 1;
+                }
+                let case = json!({"history": hist, "file": file});
+                match catch(|| check_history(&hist, file)) {
+                    Err(pn) => report.violation("no_panic", json!({"family": "history"}), case, format!("panic: {pn}"), ordinal),
+                    Ok(bad) => {
+                        for (o, d) in bad {
+                            report.violation(o, json!({"family": "history", "file": file}), case.clone(), d, ordinal);
+                        }
+                    }
+                }
+            });
+        }
+    }
     // textual form
     let text_strings = strings_over(&TEXT_BYTES, if ctx.quick() { 2 } else { 3 });
     for e in [true, false] {
@@ -357,6 +483,17 @@ fn replay(case: &Value) -> anyhow::Result<(bool, String)> {
         let bad = check_text(&f);
         let out: String = bad.iter().map(|(o, d)| format!("FAILED {o}: {d}\n")).collect();
         return Ok((!bad.is_empty(), out));
+    }
+    if let Some(h) = case.get("history") {
+        let hist: Vec<H> = serde_json::from_value(h.clone())?;
+        let file = case["file"].as_bool().unwrap_or(false);
+        return match catch(|| check_history(&hist, file)) {
+            Err(pn) => Ok((true, format!("panic: {pn}"))),
+            Ok(bad) => {
+                let out: String = bad.iter().map(|(o, d)| format!("FAILED {o}: {d}\n")).collect();
+                Ok((!bad.is_empty(), format!("policy history (target, policy index) {hist:?} file={file}\n{out}")))
+            }
+        };
     }
     let p: P = serde_json::from_value(case["policy"].clone())?;
     match catch(|| {
